@@ -33,7 +33,19 @@ Definition qmedian (l : list Q) : option Q :=
   | _ => if Nat.even n then Some ((nth (n / 2 - 1) s 0 + nth (n / 2) s 0) / 2)%Q else Some (nth (n / 2) s 0%Q)
   end.
 
-Inductive redfn := RSum | RProd | RMean | RVar | RStd | RMin | RMax | RPtp | RAll | RAny | RMedian.
+(* np.percentile(values, q) with linear interpolation between the order statistics: the virtual index is (n-1) q / 100 *)
+Definition qpercentile (q : Q) (l : list Q) : option Q :=
+  let s := qsort l in let n := List.length s in
+  match n with
+  | 0 => None
+  | _ => let pos := (inject_Z (Z.of_nat (n - 1)) * q / 100)%Q in
+         let i := Z.to_nat (Qfloor pos) in
+         let frac := (pos - inject_Z (Qfloor pos))%Q in
+         let a := nth i s 0%Q in let b := nth (Nat.min (S i) (n - 1)) s 0%Q in
+         Some (a + frac * (b - a))%Q
+  end.
+
+Inductive redfn := RSum | RProd | RMean | RVar | RStd | RMin | RMax | RPtp | RAll | RAny | RMedian | RPct (q : Q).
 
 Definition of_opt (o : option Q) : cell := match o with Some q => CNum q | None => CNaN end.
 
@@ -56,13 +68,14 @@ Definition red_cell (f : redfn) (skipna : bool) (l : list cell) : cell :=
     | RMax => of_opt (qmax v)
     | RPtp => match qmin v, qmax v with Some a, Some b => CNum (b - a) | _, _ => CNaN end
     | RMedian => of_opt (qmedian v)
+    | RPct q => of_opt (qpercentile q v)
     | _ => CNaN
     end
   end.
 Definition red_kind (f : redfn) (k : kind) : kind :=
   match f with
   | RAll | RAny => KB
-  | RMean | RVar | RStd | RMedian => KF
+  | RMean | RVar | RStd | RMedian | RPct _ => KF
   | RSum | RProd => match k with KB => KI | _ => k end
   | _ => k
   end.
